@@ -28,9 +28,9 @@ def hit(line):
 
 def mc_jobs(quick):
     base = {"MaxPkt": 100, "Spaces": "{}", "InjSizes": "{65}", "MaxInj": 1}
-    code = dict(base, Intended="FALSE", PeerMaxes="{0, 66}", Sizes="{0, 65}" if quick else "{0, 63, 64, 65, 66}",
+    code = dict(base, Intended="FALSE", PeerMaxes="{0, 66}", Sizes="{0, 65}" if quick else "{0, 64, 65}",
                 MaxSend=2 if quick else 3)
-    intended = dict(base, Intended="TRUE", PeerMaxes="{0, 66}", Sizes="{65, 500}" if quick else "{0, 64, 65, 66, 500}",
+    intended = dict(base, Intended="TRUE", PeerMaxes="{0, 66}", Sizes="{65, 500}" if quick else "{64, 65, 500}",
                     MaxSend=2 if quick else 3)
     return [("MC_Datagram/code", PID + "/mc_code", MC_CODE, code), ("MC_Datagram/intended", PID + "/mc_intended", MC_INTENDED, intended)]
 
